@@ -13,6 +13,7 @@ import (
 	"net/http"
 	"net/textproto"
 	"os"
+	"path/filepath"
 	"reflect"
 	"sort"
 	"strconv"
@@ -1012,6 +1013,93 @@ func codecRun(c *run.Ctx, r *kit.Rng, s *kit.Summary, cn string, n int) {
 	}
 }
 
+// encodeCmdRun: the `vegeta encode` command (encode.go, in-process through the verif binary): for every
+// from/to pair, what encode writes must decode to what was in the input file — on heterogeneous streams
+// (a sparse record after a full one, bursts, big fields, many records).
+func encodeCmdRun(c *run.Ctx, r *kit.Rng, s *kit.Summary, n int) {
+	if _, err := os.Stat(c.Vegeta); err != nil {
+		s.Skipped["encode-command: no vegeta binary"]++
+		return
+	}
+	names := []string{"gob", "json", "csv"}
+	type job struct {
+		rs       []vegeta.Result
+		from, to string
+		in, out  string
+		shape    string
+	}
+	var jobs []job
+	var ops []string
+	for i := 0; i < n; i++ {
+		// the CSV domain is the intersection of the three domains (UTC timestamps)
+		rs, shape := genShaped(r, "csv")
+		if len(rs) == 0 {
+			continue
+		}
+		if i%3 == 0 && !strings.HasPrefix(shape, "full-then-sparse") { // mostly the shape the command's loop is sensitive to
+			rs, shape = nil, "full-then-sparse"
+			rs = append(rs, fullResult(r, "csv"))
+			for k := 0; k <= r.Pick(3); k++ {
+				rs = append(rs, sparse(r, fullResult(r, "csv"), 0.5))
+			}
+			rs = append(rs, sparse(r, fullResult(r, "csv"), 1.0), fullResult(r, "csv"))
+		}
+		for fi, from := range names {
+			enc, st := encodeAll(codecs[from], rs)
+			if st != "ok" {
+				continue
+			}
+			in := filepath.Join(c.Work, fmt.Sprintf("enc-%d-%s.in", i, from))
+			os.WriteFile(in, enc, 0o644)
+			for ti, to := range names {
+				if n >= 60 && (i/3+fi+ti)%3 != 0 && !strings.HasPrefix(shape, "full-then-sparse") {
+					continue // all nine pairs on the sensitive shape, a third of them elsewhere
+				}
+				out := filepath.Join(c.Work, fmt.Sprintf("enc-%d-%s-%s.out", i, from, to))
+				jobs = append(jobs, job{rs, from, to, in, out, shape})
+				ops = append(ops, "encode "+kit.HexS(to)+" "+kit.HexS(out)+" "+kit.HexS(in))
+			}
+		}
+	}
+	res, err := kit.RunVegeta(c.Vegeta, ops)
+	s.Streams["encode-command"] += len(ops)
+	if err != nil {
+		s.Skipped["encode-command: driver failed"]++
+		return
+	}
+	for i, j := range jobs {
+		s.Count("encode-command:" + j.from + "->" + j.to)
+		s.Count("encode-command:shape=" + j.shape)
+		s.Case(fmt.Sprint("encode-cmd:", j.from, j.to, mkInput(j.to, j.rs)), nontrivial(j.rs))
+		in := map[string]interface{}{"command": "vegeta encode -to " + j.to + " -output OUT IN", "from": j.from, "to": j.to, "codec": j.from, "results": mkInput(j.from, j.rs).Results, "encode_command": true}
+		if res[i] != "ok" {
+			s.Violate(kit.Violation{Kind: "encode_command", What: "`vegeta encode` failed on a stream written by the result encoders", Input: in, Observed: res[i], Key: map[string]interface{}{"from": j.from, "to": j.to}})
+			continue
+		}
+		data, _ := os.ReadFile(j.out)
+		got, term := decodeAll(codecs[j.to], data)
+		bad := len(got) != len(j.rs) || term != "eof"
+		at := -1
+		for k := 0; !bad && k < len(got); k++ {
+			if !gen.SameResult(&got[k], &j.rs[k]) {
+				bad, at = true, k
+			}
+		}
+		if bad {
+			obs := fmt.Sprintf("%d of %d records then %s", len(got), len(j.rs), term)
+			if at >= 0 {
+				obs += fmt.Sprintf("; record %d read %s, written %s", at, gen.ResultLine(&got[at]), gen.ResultLine(&j.rs[at]))
+			}
+			s.Violate(kit.Violation{Kind: "encode_command", What: "what `vegeta encode` writes does not decode to what was in its input (" + j.from + " -> " + j.to + ")",
+				Input: in, Expected: fmt.Sprintf("the %d input results then eof", len(j.rs)), Observed: obs, Key: map[string]interface{}{"from": j.from, "to": j.to}})
+		}
+		os.Remove(j.out)
+	}
+	for _, j := range jobs {
+		os.Remove(j.in)
+	}
+}
+
 // equalRun: Result.Equal / headerEqual are "the notion of equality" of the property. A deep copy must be
 // Equal, a copy that differs in exactly one field must not be; nil and empty bodies are equal, a nil and an
 // empty header map are not. Every pair also goes to the model (`c07.equal`).
@@ -1350,6 +1438,30 @@ func replay(c *run.Ctx, s *kit.Summary) {
 		return
 	}
 	s.Case("replay", true)
+	if rec.Kind == "encode_command" {
+		var e struct {
+			Input struct{ From, To string } `json:"input"`
+		}
+		json.Unmarshal(raw, &e)
+		enc, _ := encodeAll(codecs[e.Input.From], rs)
+		in, out := filepath.Join(c.Work, "replay.in"), filepath.Join(c.Work, "replay.out")
+		os.WriteFile(in, enc, 0o644)
+		res, err := kit.RunVegeta(c.Vegeta, []string{"encode " + kit.HexS(e.Input.To) + " " + kit.HexS(out) + " " + kit.HexS(in)})
+		if err != nil {
+			panic(err)
+		}
+		data, _ := os.ReadFile(out)
+		got, term := decodeAll(codecs[e.Input.To], data)
+		bad := res[0] != "ok" || len(got) != len(rs) || term != "eof"
+		for k := 0; !bad && k < len(got); k++ {
+			bad = !gen.SameResult(&got[k], &rs[k])
+		}
+		if bad {
+			s.Violate(kit.Violation{Kind: "encode_command", What: "what `vegeta encode` writes does not decode to what was in its input (" + e.Input.From + " -> " + e.Input.To + ")",
+				Input: rec.Input, Observed: res[0] + " " + gen.ResultsLine(got, term, false)})
+		}
+		return
+	}
 	oracle(s, cd, rs)
 }
 
@@ -1373,6 +1485,7 @@ func runC07(c *run.Ctx, s *kit.Summary) {
 	codecRun(c, r, s, "gob", c.N(3000, 30000))
 	gobModelRun(c, r, s, c.N(3000, 40000))
 	equalRun(c, r, s, c.N(3000, 100000))
+	encodeCmdRun(c, r, s, c.N(150, 4000))
 	mutatedRun(c, r, s, "csv", c.N(2000, 60000))
 	mutatedRun(c, r, s, "json", c.N(2000, 60000))
 }
